@@ -47,7 +47,7 @@ def st_rstart(draw):
 
 @st.composite
 def st_rop(draw, extra=()):
-    o = draw(st.sampled_from(['append', 'append', 'iterappend', 'trunc', 'trunc', 'mode', 'reopen', 'read', 'ctx', 'failappend', 'sibling', 'recreate', 'iterappend2d', 'fillmax', 'iterappend-x'] + list(extra)))
+    o = draw(st.sampled_from(['append', 'append', 'iterappend', 'trunc', 'trunc', 'mode', 'reopen', 'read', 'ctx', 'failappend', 'sibling', 'recreate', 'iterappend2d', 'fillmax', 'iterappend-x', 'overfill'] + list(extra)))
     if o == 'append':
         return {'o': 'append', 'item': draw(st_item())}
     if o == 'iterappend':
@@ -79,6 +79,9 @@ def st_rop(draw, extra=()):
                 'kind': draw(st.sampled_from(['raise', 'badatom', 'unconv'])), 'gen': draw(st.booleans())}
     if o == 'fillmax':
         return {'o': 'fillmax', 'seed': draw(st.integers(0, 2 ** 31))}
+    if o == 'overfill':
+        return {'o': 'overfill', 'style': draw(st.sampled_from(['append', 'iter', 'iter-gen', 'iter-many'])), 'over': draw(st.sampled_from([1, 1, 2, 9, 130, 300])),
+                'seed': draw(st.integers(0, 2 ** 31))}
     if o == 'iterappend-x':
         return {'o': 'iterappend-x', 'style': draw(st.sampled_from(['from-self', 'from-self', 'gen-sets-mode', 'readcode-inside', 'manyitems', 'manyitems'])),
                 'n': draw(st.sampled_from([130, 130, 300, 1100])), 'seed': draw(st.integers(0, 2 ** 31))}
@@ -549,6 +552,54 @@ class RaggedRun:
             self.m = m + [model_item(x, self.dt)]
             self.nmut += 1
             return self.observe('append:fill-to-index-max')
+        if o == 'overfill':
+            # an append (or one iterappend call) that would bring the number of stored value rows ABOVE the largest number the index
+            # type can hold.  Nothing about the outcome is demanded except what C04/C05 state: if the call raises, the complete
+            # subarrays before the one that does not fit are kept and nothing else; if it does not raise, everything was stored.
+            room = IDXMAX[self.indextype] - self.total()
+            if self.mode == 'r' or getattr(self, 'in_ctx', False) or not (0 <= room <= 70000):
+                return True
+            atom = tuple(self.atom)
+            mk = lambda k, sd: gens.build_array(self.dt, (k,) + atom, {'m': 'safe', 's': op['seed'] + sd})
+            style, over = op['style'], op['over']
+            self.kinds.append('append')
+            self.out.cls('append-beyond-index-type', 'overfill:' + style)
+            tag = 'overfill:' + style
+            if style == 'append':
+                new = [mk(room + over, 1)]
+                call = lambda: ra.append(new[0])
+                nfit = 0
+            else:
+                if style == 'iter-many':      # many short subarrays, the limit is crossed somewhere in the middle
+                    k = room + over
+                    pool = mk(k + 2, 1)
+                    new, pos = [], 0
+                    while pos < k:
+                        ln = 1 + (len(new) % 3 == 0)
+                        new.append(pool[pos:pos + ln])
+                        pos += ln
+                else:
+                    first = min(room, 2)
+                    new = [mk(first, 1), mk(0, 2), mk(room - first + over, 3), mk(1, 4)]
+                nfit, tot = 0, 0
+                for x in new:
+                    if tot + len(x) > room:
+                        break
+                    tot += len(x)
+                    nfit += 1
+                src = (x for x in new) if style != 'iter' else list(new)
+                call = lambda: ra.iterappend(src)
+            try:
+                call()
+            except Exception:
+                self.out.cls('overfill-raised')
+                kept = new[:nfit]
+            else:
+                kept = new
+            self.m = m + [model_item(x, self.dt) for x in kept]
+            if kept:
+                self.nmut += 1
+            return self.observe(tag)
         if o == 'iterappend2d':
             # the iterable is ONE numeric ndarray whose rows (first axis) are the subarrays: k subarrays of n values each
             if self.mode == 'r':
